@@ -16,3 +16,6 @@ func (i *Initiator) VerifStartWithDialer(d proxy.ContextDialer) {
 		}(sessionID)
 	}
 }
+
+// VerifInBytes returns the frame carried by an element of the inbound channel.
+func VerifInBytes(in VerifFixIn) []byte { return in.bytes.Bytes() }
